@@ -8,6 +8,7 @@ accounting against the rules converted alone (each in its own fresh world with t
 from __future__ import annotations
 
 import copy
+import re
 from random import Random
 from typing import Any, Iterable
 
@@ -18,7 +19,7 @@ QUICK_RUNS = 4000
 RUN_TIMEOUT = 40.0
 RULE = (
     "seeded generator: collection of 1-8 detection rules (single/multi condition, optional output-disabled "
-    "rules, 0-2 filters), one backend variant with or without user pipeline, a fault plan keyed by rule "
+    "rules, 0-2 filters, in 30% of the batches 1-2 correlation rules over some of them), one backend variant with or without user pipeline, a fault plan keyed by rule "
     "title (pipeline failure item, sim_fail_at partial application, post-processing failure, unresolved "
     "placeholder, unbound bool/CIDR keyword, missing detection, injected Sigma error or NotImplementedError "
     "at the n-th call of a conversion hook incl. finish_query/finalize_query); converted once with "
@@ -31,7 +32,8 @@ STUB = ["none (faults are raised by SimBackend hooks and /verif-defined transfor
 ASSUMPTIONS = [
     "documents the loader rejects when loaded alone are removed from the scenario before the batch: "
     "a rule that cannot be loaded never reaches the backend",
-    "correlation rules are excluded (a correlation legitimately depends on the rules it references; C09)",
+    "correlation rules take part as further members of 30% of the batches; equality with the rule converted alone is "
+    "asserted for rules no correlation refers to, the accounting for every member (DESIGN 8.1)",
     "with filters present, 'the rule alone' means the rule together with the same filters",
     "pipelines carry no finalizers here (output would not be a list of queries; that is C14)",
 ]
@@ -113,7 +115,7 @@ def generate(streams: core.Streams, tier: str) -> dict:
             exc = "NotImplementedError" if gen.chance(f, 0.15) else gen.pick(f, SIGMA_EXCS)
             faults.append({"rule": d["title"], "stage": gen.pick(f, STAGES), "nth": f.randint(1, 3), "exc": exc})
     disabled = [d["title"] for d in docs if gen.chance(s, 0.1)]
-    return {
+    sc = {
         "cls": gen.pick(s, CLASSES),
         "format": gen.pick(s, ["default", "default", "alt", "st"]),
         "pipeline": pipeline,
@@ -122,6 +124,23 @@ def generate(streams: core.Streams, tier: str) -> dict:
         "faults": faults,
         "disabled": disabled,
     }
+    # correlation rules over some of the rules (drawn last: everything above keeps its value for a seed).
+    # They always ask for generation, so the referenced rules keep their own output.
+    corrs: list[dict] = []
+    if gen.chance(w, 0.3):
+        unique = [d for d in docs if sum(1 for x in docs if x["title"] == d["title"]) == 1]
+        for j in range(w.choice([1, 1, 2])):
+            if not unique:
+                break
+            refs = w.sample(unique, min(len(unique), w.randint(1, 2)))
+            for d in refs:
+                d.setdefault("name", "ref_" + d["title"].lower())
+            targets = [d["name"] for d in refs]
+            if corrs and gen.chance(w, 0.3):
+                targets.append(corrs[-1]["name"])
+            corrs.append(gen.gen_correlation(w, f"K{j}", targets, name=f"corr_{j}", generate=True))
+    sc["correlations"] = corrs
+    return sc
 
 
 # ------------------------------------------------------------------------------------------------
@@ -136,10 +155,10 @@ def _backend(sc: dict, collect: bool) -> Any:
     return b
 
 
-def _load(sc: dict, docs: list[dict]) -> Any:
+def _load(sc: dict, docs: list[dict], corrs: list[dict] | None = None) -> Any:
     from sigsim import world
 
-    coll = world.load_collection(list(sc.get("filters", [])) + docs)
+    coll = world.load_collection(list(sc.get("filters", [])) + docs + list(corrs or []))
     for r in coll.rules:
         if r.title in sc.get("disabled", []):
             r.disable_output()
@@ -171,7 +190,7 @@ def _strict(args: dict) -> dict:
     docs = sc["documents"]
     b = _backend(sc, False)
     try:
-        coll = _load(sc, docs)
+        coll = _load(sc, docs, sc.get("correlations"))
     except Exception as e:
         return {"loadfail": world.exc_record(e)}
     return world.capture(lambda: b.convert(coll, sc["format"]))
@@ -200,6 +219,14 @@ def execute(scenario: dict) -> dict:
     sc_eff = dict(sc)
     sc_eff["documents"] = [sc["documents"][i] for i in keep]
     alone = [alone[i] for i in keep]
+    # correlation rules survive only if everything they refer to is still there
+    known = {d.get("name") for d in sc_eff["documents"]} - {None}
+    corrs: list[dict] = []
+    for c in sc.get("correlations", []):
+        if all(t in known for t in c["correlation"]["rules"]):
+            corrs.append(c)
+            known.add(c["name"])
+    sc_eff["correlations"] = corrs
     faults: dict[str, int] = {}
     probes: dict[str, int] = {}
     if dropped:
@@ -216,11 +243,22 @@ def execute(scenario: dict) -> dict:
     b = _backend(sc_eff, True)
     violation = None
     try:
-        coll = _load(sc_eff, sc_eff["documents"])
+        coll = _load(sc_eff, sc_eff["documents"], corrs)
         loaded = True
     except Exception as e:
         loaded = False
         got = {"loadfail": world.exc_record(e)}
+        if corrs:
+            # the generator's correlation documents are meant to be loadable; if they are not, that
+            # is outside this property (C09 owns reference resolution): go on without them
+            try:
+                coll = _load(sc_eff, sc_eff["documents"])
+                loaded = True
+                probes["correlations_dropped_batch_unloadable"] = 1
+                corrs = []
+                sc_eff["correlations"] = []
+            except Exception:
+                pass
     if loaded:
         got = world.capture(lambda: b.convert(coll, sc_eff["format"]))
         got["errors"] = world.errors_record(b.errors)
@@ -281,6 +319,8 @@ def execute(scenario: dict) -> dict:
             probes["failing_rule_last"] = 1
         if any(0 < p < len(classes) - 1 for p in pos):
             probes["failing_rule_middle"] = 1
+    if corrs:
+        probes["with_correlation_rules"] = 1
     if sc_eff.get("filters"):
         probes["with_filters"] = 1
     if sc_eff.get("disabled"):
@@ -299,6 +339,8 @@ def execute(scenario: dict) -> dict:
         violation = {"oracle": "collect-mode-never-raises-for-listed-failure-stages",
                      "kind": "raised:" + aborting["exc"], "got": aborting,
                      "want": "one (rule, error) record, no exception"}
+    elif corrs:
+        violation = _check_with_correlations(sc_eff, alone, corrs, got, probes)
     else:
         want = {"ok": world.normalise(want_queries), "errors": want_errors}
         if got.get("ok") != want["ok"] or "ok" not in got:
@@ -330,6 +372,75 @@ def execute(scenario: dict) -> dict:
     sig = core.digest([classes, sorted(faults), sc["cls"], sc.get("pipeline") is not None, bool(sc.get("filters"))])
     return {"violation": violation, "log": log, "faults": faults, "probes": probes,
             "steps": len(classes), "signature": sig, "nontrivial": n_fail >= 1 and n_ok >= 1}
+
+
+_TAG = re.compile(r"<([RK]\d+)>")
+
+
+def _check_with_correlations(sc: dict, alone: list[dict], corrs: list[dict], got: dict, probes: dict) -> Any:
+    """Batches that contain correlation rules.  A correlation legitimately depends on the rules it
+    refers to (their queries are embedded and not finalised on their own), so the comparison with the
+    rule converted alone is made for the *bystanders* - the rules no correlation refers to - and the
+    accounting (no exception in collecting mode, a failing rule gives one record and no query) for
+    every rule and correlation rule."""
+    from sigsim import world
+
+    docs = sc["documents"]
+    referenced = {t for c in corrs for t in c["correlation"]["rules"]}
+    involved = {d["title"] for d in docs if d.get("name") in referenced}
+    if "ok" not in got:
+        if got.get("sigma") or got.get("exc") == "NotImplementedError":
+            return {"oracle": "collect-mode-never-raises-for-listed-failure-stages",
+                    "kind": "raised-with-correlation-rule:" + str(got.get("exc")), "got": got,
+                    "want": "one (rule, error) record per rule that cannot be converted, no exception"}
+        probes["correlation_batch_unlisted_exception"] = 1
+        return None
+    qs = got["ok"] if isinstance(got["ok"], list) else [got["ok"]]
+    def title_of(q: Any) -> str:
+        m = _TAG.search(str(q))
+        return m.group(1) if m else "?"
+
+    by_title: dict[str, list] = {}
+    for q in qs:
+        by_title.setdefault(title_of(q), []).append(q)
+    by_stander_q = [q for q in qs if title_of(q) not in involved and not title_of(q).startswith("K")]
+    want_q: list = []
+    want_e: list = []
+    for d, a in zip(docs, alone):
+        if d["title"] in involved:
+            continue
+        want_q.extend(a["ok"] if isinstance(a["ok"], list) else [a["ok"]])
+        want_e.extend(a["errors"])
+    want_q = world.normalise(want_q)
+    got_e = [e for e in got["errors"] if e["rule"] not in involved and not str(e["rule"]).startswith("K")]
+    if by_stander_q != want_q:
+        return {"oracle": "batch-equals-concatenation-of-alone-results", "kind": "bystander-queries-differ-with-correlation-rule",
+                "got": {"ok": by_stander_q}, "want": {"ok": want_q}}
+    if got_e != want_e:
+        return {"oracle": "one-error-record-per-failing-rule", "kind": "bystander-errors-differ-with-correlation-rule",
+                "got": {"errors": got_e}, "want": {"errors": want_e}}
+    failed = set()
+    for title in sorted(involved) + [c["title"] for c in corrs]:
+        recs = [e for e in got["errors"] if e["rule"] == title]
+        if len(recs) > 1:
+            return {"oracle": "one-error-record-per-failing-rule", "kind": "records:%d" % len(recs),
+                    "got": {"errors": recs}, "want": {"rule": title}}
+        if recs and by_title.get(title):
+            return {"oracle": "failing-rule-contributes-no-query", "kind": "queries:%d" % len(by_title[title]),
+                    "got": {"ok": by_title[title], "errors": recs}, "want": {"rule": title}}
+        if recs:
+            failed.add(title)
+    name_to_title = {d.get("name"): d["title"] for d in docs if d.get("name")}
+    name_to_title.update({c["name"]: c["title"] for c in corrs})
+    for c in corrs:
+        broken = [t for t in c["correlation"]["rules"] if name_to_title.get(t) in failed]
+        if broken and c["title"] not in failed:
+            return {"oracle": "failing-rule-contributes-no-query", "kind": "correlation-converted-over-a-failed-rule",
+                    "got": {"ok": by_title.get(c["title"]), "errors": [e for e in got["errors"] if e["rule"] == c["title"]]},
+                    "want": {"rule": c["title"], "failed_references": broken}}
+        if broken:
+            probes["correlation_over_failed_rule_collected"] = probes.get("correlation_over_failed_rule_collected", 0) + 1
+    return None
 
 
 def _has_selector(cond: Any) -> bool:
@@ -368,6 +479,14 @@ def shrink(sc: dict) -> Iterable[dict]:
             titles = {d["title"] for d in sub}
             c["faults"] = [f for f in c["faults"] if f["rule"] in titles]
             c["disabled"] = [t for t in c["disabled"] if t in titles]
+            yield c
+    if sc.get("correlations"):
+        c = copy.deepcopy(sc)
+        c["correlations"] = []
+        yield c
+        for i in range(len(sc["correlations"])):
+            c = copy.deepcopy(sc)
+            del c["correlations"][i]
             yield c
     for i in range(len(sc.get("filters", []))):
         c = copy.deepcopy(sc)
